@@ -25,6 +25,10 @@ type Viol struct {
 	Scenario  any    `json:"scenario"`
 	ScenarioI int    `json:"scenario_index"`
 	Schedule  []int  `json:"schedule"`
+	// local-object elision: the schedule's choice points depend on which objects were known to be shared
+	// when the execution started; a replay installs the same set (vrt.SetShared) before running it
+	Elide  bool     `json:"elide,omitempty"`
+	Shared []uint64 `json:"shared_objects,omitempty"`
 }
 
 // Result of exploring one scenario in a worker process.
@@ -65,7 +69,10 @@ type Budget struct {
 	Prune    bool          // state-key pruning
 	Elide    bool          // no scheduling point at operations on objects only one thread touches (fixpoint over restarts)
 	PerScen  time.Duration // wall budget per scenario
-	MaxExecs int64
+	// RequiredPerScen, when > 0, is the wall budget of the required bounds (PerScen then only limits the
+	// best-effort bounds): keeps "required bound cut" from depending on machine load
+	RequiredPerScen time.Duration
+	MaxExecs        int64
 }
 
 // Explore runs one scenario under iterative preemption bounding.
@@ -86,7 +93,11 @@ func Explore(i int, sc Scenario, b Budget) *Result {
 	deadline := t0.Add(b.PerScen)
 	sigSeen := map[string]int{}
 	for bi, bound := range b.Bounds {
-		e := &vrt.Explorer{Bound: bound, Prune: b.Prune, Deadline: deadline, MaxExecs: b.MaxExecs}
+		dl := deadline
+		if bi < b.Required && b.RequiredPerScen > 0 {
+			dl = t0.Add(b.RequiredPerScen)
+		}
+		e := &vrt.Explorer{Bound: bound, Prune: b.Prune, Deadline: dl, MaxExecs: b.MaxExecs}
 		var lastX *vrt.Execution
 		e.OnExec = func(x *vrt.Execution) bool {
 			lastX = x
@@ -102,7 +113,11 @@ func Explore(i int, sc Scenario, b Budget) *Result {
 			if sig != "" {
 				sigSeen[sig]++
 				if sigSeen[sig] <= 1 {
-					res.Viols = append(res.Viols, Viol{Signature: sig, Desc: desc, Scenario: sc.Params, ScenarioI: i, Schedule: x.Choices()})
+					v := Viol{Signature: sig, Desc: desc, Scenario: sc.Params, ScenarioI: i, Schedule: x.Choices()}
+					if b.Elide {
+						v.Elide, v.Shared = true, vrt.SharedPrefix(x.SharedAtStart)
+					}
+					res.Viols = append(res.Viols, v)
 				}
 				res.KnownSeen[sig]++
 			}
